@@ -349,6 +349,19 @@ def do_actions(acts, where):
             if _flaky_counts[where] == act[1]:
                 emit('raise', where=where, exc=act[2] if len(act) > 2 else 'AssertionError', flaky=True)
                 raise make_exc(act[2] if len(act) > 2 else 'AssertionError', 'flaky: fails in execution %d only' % act[1])
+        elif kind == 'warn_filter':
+            # a test (or a module at import time) that changes the warnings filters
+            import warnings
+            if act[1] == 'simple':
+                warnings.simplefilter('ignore', ResourceWarning)
+            else:
+                warnings.filterwarnings('error', message='ztv-generated-%s' % where)
+        elif kind == 'settrace_cycle':
+            # a test that installs a trace function of its own and removes it again
+            def _tracer(frame, event, arg):
+                return None
+            sys.settrace(_tracer)
+            sys.settrace(None)
         elif kind == 'write_file':
             # ['write_file', path relative to the world's src directory, content]
             src = os.path.join(os.path.dirname(os.environ['ZTV_SPEC']), 'src')
